@@ -1227,6 +1227,376 @@ def C04(tier, seed):
 REGISTRY["C04"] = C04
 
 
+def C03(tier, seed):
+    import json
+    import os
+    import random
+    import shutil
+    import time
+    from . import common as C
+    t0 = time.time()
+    pid = "C03"
+    wd = C.workdir(pid)
+    try:
+        build_s = C.build_harness()
+        states = transitions = 0
+        mc_stats = []
+        for mode in ("direct", "buf", "async"):
+            cfg = f"MCFlwConc_{mode}.cfg"
+            r = C.run_tlc("MCFlwConc.tla", os.path.join(C.SPEC, cfg), os.path.join(wd, "mc-" + cfg), workers=8, timeout=2400)
+            if r["violated"] or r["deadlock"]:
+                raise C.ToolError(f"FlwConc/{cfg} violates {r['violated']} in the intended design")
+            mc_stats.append({"cfg": cfg, "states": r["states"], "transitions": r["transitions"], "wall_s": r["wall_s"]})
+            states += r["states"]
+            transitions += r["transitions"]
+            C.log(f"[C03] TLC {cfg}: {r['states']} distinct states; NoDuplicate, PerProducerOrder, OnlyAccepted, AllArrive hold "
+                  f"for every interleaving of 2 threads x 2 records (+ application and writer thread)")
+        rng = random.Random(seed)
+        scens = []
+        nsched = 0
+        variants = {
+            "direct": [{"mode": "direct"}],
+            "buf": [{"mode": "buf", "cap": 8}, {"mode": "buf", "cap": 64}],
+            "async": [{"mode": "async", "pool": 1, "mcapa": 8, "flush_ms": 0}, {"mode": "async", "pool": 4, "mcapa": 64, "flush_ms": 1}],
+        }
+        for mode in ("direct", "buf", "async"):
+            r = C.run_tlc("MCFlwConc.tla", os.path.join(C.SPEC, f"MCFlwConc_sched_{mode}.cfg"), os.path.join(wd, "gen-" + mode),
+                          workers=4, timeout=900)
+            states += r["states"]
+            transitions += r["transitions"]
+            seen = set()
+            for x in C.replay_lines(r):
+                ops = [s_ for s_ in x["steps"] if s_["op"] in ("Format", "Write", "Send", "Shutdown")]
+                if not ops or ops[-1]["op"] != "Shutdown":
+                    continue        # threads that log after shutdown() are outside the property
+                ops = ops[:-1]
+                key = json.dumps(ops)
+                if key in seen or sum(1 for o in ops if o["op"] in ("Write", "Send")) < 4:
+                    continue
+                seen.add(key)
+                for v in variants[mode]:
+                    c = dict(v)
+                    c.update({"naming": ["Num", "TsD", "NumD", "Ts"][len(scens) % 4], "rot": len(scens) % 3 != 0, "size": 20})
+                    scens.append({"sc": len(scens) + 1, "kind": "sched", "out": "file", "cfg": c, "steps": ops,
+                                  "lens": [12, 30], "origin": f"tlc:MCFlwConc_sched_{mode}"})
+                    nsched += 1
+        nstress = 60 if tier == "quick" else 1500
+        for i in range(nstress):
+            c = G.rand_cfg(rng, criteria=("size",), modes=("direct", "buf", "bufflush", "async", "async"))
+            c["crlf"] = False
+            c["size"] = rng.choice([100, 500, 4000])
+            c["bg"] = rng.random() < 0.3
+            if c["mode"] == "async":
+                c.update({"pool": rng.choice([1, 2, 50]), "mcapa": rng.choice([8, 32, 200]), "flush_ms": rng.choice([0, 1])})
+            if c["mode"] == "bufflush":
+                c["flush_ms"] = 1
+            if c["mode"] in ("buf", "bufflush"):
+                c["cap"] = rng.choice([8, 64, 256, 8192])
+            out = rng.choice(["file", "file", "file", "stdout", "stderr"])
+            if out != "file" and c["mode"] == "bufflush":
+                c["mode"] = "buf"
+            threads = rng.choice([2, 4, 8, 16])
+            per = rng.choice([20, 60, 150]) if tier == "quick" else rng.choice([100, 500, 2000])
+            pivots = [9, 12, 33, 63, 64, 65, c.get("cap", 64) - 1, c.get("cap", 64) + 1, c.get("mcapa", 32) + 1, 250]
+            scens.append({"sc": len(scens) + 1, "kind": "stress", "out": out, "cfg": c, "threads": threads, "per": per,
+                          "lens": [max(9, x) for x in rng.sample(pivots, 5)], "noise": rng.randrange(1, 2 ** 31),
+                          "origin": "stress"})
+        res = C.run_sharded(pid, "MonC03", scens, wd, sub="conc")
+        C.log(f"[C03] {nsched} TLC schedules replayed deterministically (output order must equal the specified order) + {nstress} "
+              f"stress runs (2-16 threads, seeded scheduling noise; file / stdout / stderr): {res['scenarios']} executions; judged by "
+              f"MonC03.tla in {res['wall_s']}s; {len(res['bads'])} predicate failures; counters {res['counts']}")
+        viols, known = C.triage(pid, res["bads"], res["traces"], res["scen_files"])
+        for fnd, cnt in known:
+            C.log(f"KNOWN-FINDING: property={pid} {fnd['id']}: {fnd['what']} ({cnt} occurrences)")
+        for v in viols[:10]:
+            C.log(f"VIOLATION property={pid} replay={v['replay']}")
+            C.log(f"   predicate {v['pred']} failed at scenario {v['sc']} event {v['n']}; facts {v['facts']}")
+        samples = []
+        for tf in res["traces"][:1]:
+            for k, line in enumerate(open(tf)):
+                e = json.loads(line)
+                if e["ev"] == "Begin":
+                    samples.append({"kind": e["kind"], "out": e["out"], "cfg": e["cfg"], "threads": e["threads"], "per": e["per"],
+                                    "steps": e["steps"][:12]})
+                if len(samples) >= 3:
+                    break
+        cov = {"states": states, "transitions": transitions, "traces_validated_against_impl": res["scenarios"],
+               "evaluations": res["scenarios"],
+               "distinct_nontrivial": len({json.dumps([s_["cfg"], s_.get("steps"), s_.get("threads"), s_.get("per"), s_.get("noise")],
+                                                      sort_keys=True) for s_ in scens}),
+               "rule": "(a) every schedule of 2 threads x 2 records of FlwConc.tla (steps Format/Write resp. Format/Send; "
+                       "direct, buffered, async) replayed through the schedule controller at the hook point between formatting "
+                       "and the critical section / the channel send: the file order must be the order the specification "
+                       "predicts; (b) stress: 2-16 threads x 20-150 (quick) / 100-2000 (thorough) records, record lengths around "
+                       "buffer and pool capacities, size rotation under every naming, modes direct/buffered/buffer+flush/async "
+                       "(pool 1-50, message capacity 8-200), outputs file, stdout, stderr (child process), seeded yield/sleep "
+                       "noise at the hook points",
+               "samples": samples, "model_checking_runs": mc_stats, "schedules_replayed": nsched, "stress_runs": nstress,
+               "monitor": "MonC03.tla", "monitor_counters": res["counts"], "predicate_failures": len(res["bads"]),
+               "known_findings_hit": [{"id": f["id"], "count": c} for f, c in known], "exhaustive": False,
+               "harness_build_s": round(build_s, 1)}
+        C.write_evidence(pid, tier, seed, "model_checking", cov,
+                         A_COMMON + ["on the code, interleavings finer than the hook points are reached by stress only "
+                                     "(exploration); the exhaustive statement is about the model"],
+                         time.time() - t0, len(viols))
+        return 1 if viols else 0
+    finally:
+        shutil.rmtree(wd, ignore_errors=True)
+
+
+REGISTRY["C03"] = C03
+EXECUTOR["C03"] = "conc"
+
+
+C10_FMT = {"std": None, "with_dot": "r%Y.%m.%d_%H.%M.%S", "no_r": "%Y%m%d-%H%M%S", "date_only": "r%Y-%m-%d",
+           "with_space": "r%Y %m %d %H%M%S", "percent": "r%%%Y-%m-%d_%H%M%S", "compact": "%Y%m%dT%H%M%S",
+           "with_millis_literal": "r%Y-%m-%d_%H-%M-%S_000"}
+
+
+def _rand_unicode(rng, n):
+    pools = [(0x20, 0x7e), (0xa0, 0x24f), (0x370, 0x3ff), (0x4e00, 0x4e80), (0x1f600, 0x1f64f), (0x2000, 0x206f)]
+    out = []
+    for _ in range(n):
+        a, b = rng.choice(pools)
+        out.append(chr(rng.randint(a, b)))
+    return "".join(out)
+
+
+def _c10_dir_steps(cls, c, rng):
+    num = c["naming"] in ("Num", "NumD")
+    cur = c.get("cur") or ("rCURRENT" if c["naming"] in ("Num", "Ts") else "")
+    i0 = "r00007" if num else "r2030-01-01_00-16-40"
+    pre = "app_"
+    sfx = ".log"
+    rec = "0000901|xxxx\n"
+    mk = lambda name, **kw: dict({"op": "ExtCreate", "name": name, "content": rec}, **kw)  # noqa: E731
+    if cls == "empty":
+        return []
+    if cls == "earlier_run":
+        return [{"op": "Start", "append": False}, {"op": "Log", "len": 40}, {"op": "Log", "len": 40}, {"op": "Log", "len": 40},
+                {"op": "Stop"}]
+    if cls == "near_miss":
+        return [mk(n) for n in foreign_names(c)]
+    if cls == "multibyte_at_infix":
+        return [mk(f"app\u00e9_{i0}{sfx}"), mk(f"app_\u00e9{i0[1:]}{sfx}"), mk(f"ap\u00fc_{i0}{sfx}"), mk(f"app_\U0001f600{sfx}")]
+    if cls == "multibyte_in_infix":
+        return [mk(f"app_{i0[:-1]}\u00e9{sfx}"), mk(f"app_{i0[:3]}\u65e5{i0[4:]}{sfx}"), mk(f"app_{i0}\u00e9{sfx}"),
+                mk(f"app_{i0}.restart-00\u00e9\u00e9{sfx}")]
+    if cls == "malformed_restart":
+        b = "r2030-01-01_00-16-40" if not num else i0
+        return [mk(f"app_{b}.restart-1{sfx}"), mk(f"app_{b}.restart-000x{sfx}"), mk(f"app_{b}.restart-{sfx}"),
+                mk(f"app_{b}.restart-99999{sfx}"), mk(f"app_{b}.restart-{sfx}.gz"), mk(f"app_{b}.restart-0001.restart-0002{sfx}")]
+    if cls == "dir_named_like_rotated":
+        return [mk(f"app_{i0}{sfx}", dir=True), mk(f"app_{i0}{sfx}.gz", dir=True)]
+    if cls == "dir_at_current_path":
+        name = f"app_{cur}{sfx}" if cur else (f"app_r00000{sfx}" if num else f"app_r2030-01-01_00-16-40{sfx}")
+        return [mk(name, dir=True)]
+    if cls == "only_gz":
+        return [mk(f"app_{x}{sfx}.gz", gz=True) for x in (["r00000", "r00001", "r00002"] if num else
+                                                            ["r2030-01-01_00-00-00", "r2030-01-01_00-00-01"])]
+    if cls == "high_index":
+        return [mk(f"app_{x}{sfx}") for x in (["r99998", "r99999"] if num else ["r2099-12-31_23-59-58", "r9999-12-31_23-59-59"])]
+    if cls == "huge_file":
+        name = f"app_{cur}{sfx}" if cur else f"app_{i0}{sfx}"
+        return [mk(name, repeat=80000)]
+    if cls == "unicode_digits":
+        return [mk(f"app_r0000\uff17{sfx}"), mk(f"app_r\u0663\u0663\u0663\u0663\u0663{sfx}"), mk(f"app_r2030-01-01_00-16-4\uff10{sfx}")]
+    if cls == "symlink_dangling":
+        return [mk(f"app_{i0}{sfx}", symlink="/nonexistent/target"), mk(f"app_{i0}.restart-0000{sfx}", symlink="loop"),
+                mk("loop", symlink="loop")]
+    if cls == "many_files":
+        return [mk(f"app_r{j:05d}{sfx}" if num else f"app_r2029-01-01_00-{j // 60:02d}-{j % 60:02d}{sfx}") for j in range(150)]
+    return []
+
+
+def _c10_op_steps(cls, rng, nfam):
+    P = {"op": "Log", "len": 20, "probe": True}
+    if cls == "log_plain":
+        return [dict(P)]
+    if cls == "log_empty_msg":
+        return [{"op": "Log", "len": 1, "msg": ""}]
+    if cls == "log_multiline":
+        return [{"op": "Log", "len": 1, "msg": "first\nsecond\r\n\n\tthird"}]
+    if cls == "log_nonascii":
+        return [{"op": "Log", "len": 1, "msg": "h\u00e9llo \u2713 \u65e5\u672c " + _rand_unicode(rng, 12)}]
+    if cls == "log_huge":
+        return [{"op": "Log", "len": rng.choice([65536, 1048576])}]
+    if cls == "log_no_fields":
+        return [{"op": "Log", "len": 20, "nomod": True, "query": True}]
+    t = {"log_target_empty": ["", " "], "log_brace_open": ["{", "{{", "}"], "log_brace_empty": ["{}", "{,}", "{ }"],
+         "log_brace_unbalanced": ["{A", "{A,B", "A}", "{A}}"], "log_brace_trailing_comma": ["{A,}", "{,A}", "{A,,_Default}"],
+         "log_brace_multibyte": ["{\u00e9", "{A\u00e9", "{\u00e9}", "\u00e9{A}", "{A}\u00e9", "{\U0001f600", "{_Default,\u65e5"],
+         "log_brace_unknown": ["{X}", "{X,Y,Z}", "{A,X}"], "log_brace_default": ["{A,_Default}", "{_Default}", "{_Default,_Default}"]}
+    if cls in t:
+        tg = rng.choice(t[cls] + ([("{" + _rand_unicode(rng, rng.randint(0, 6))) if rng.random() < 0.5 else _rand_unicode(rng, 5)]
+                                  if "brace" in cls else []))
+        return [{"op": "Log", "len": 20, "target": tg, "query": True}]
+    if cls == "trigger":
+        return [{"op": "Trigger"}]
+    if cls == "flush":
+        return [{"op": "Flush"}]
+    if cls == "elf":
+        return [{"op": "Elf", "sel": rng.choice(C16_SELS)}]
+    if cls == "reopen":
+        return [{"op": "Reopen"}]
+    if cls == "parse_garbage":
+        return [{"op": "ParseNew", "spec": rng.choice(["a=b=c,,=,/[(", "info,=,warn/", "///", "a=,=b", "trace/(((", "=", ",,,,", "a b=c"])}]
+    if cls == "parse_unicode":
+        return [{"op": "ParseNew", "spec": _rand_unicode(rng, rng.randint(1, 30))}]
+    if cls == "restart":
+        return [{"op": "Stop"}, {"op": "Start", "append": rng.random() < 0.5}]
+    if cls == "reset":
+        return [{"op": "Reset", "cfg": {"naming": rng.choice(["Num", "TsD"]), "rot": True, "size": 50, "subdir": f"fam{nfam}",
+                                         "basename": f"app{nfam}", "full": True}}]
+    return []
+
+
+def C10(tier, seed):
+    import json
+    import os
+    import random
+    import shutil
+    import subprocess
+    import time
+    from concurrent.futures import ThreadPoolExecutor
+    from . import common as C
+    t0 = time.time()
+    pid = "C10"
+    wd = C.workdir(pid)
+    try:
+        build_s = C.build_harness()
+        r = C.run_tlc("MCRobust.tla", os.path.join(C.SPEC, "MCRobust_q.cfg"), os.path.join(wd, "mc"), workers=8, timeout=900)
+        if r["violated"]:
+            raise C.ToolError(f"Robust violates {r['violated']}")
+        states, transitions = r["states"], r["transitions"]
+        C.log(f"[C10] TLC MCRobust_q.cfg: {r['states']} distinct states: totality over the class catalogue (14 directory classes x "
+              f"6 namings x 9 format classes x append x sequences of 22 operation classes)")
+        g = C.run_tlc("MCRobust.tla", os.path.join(C.SPEC, "MCRobust_gen.cfg" if tier == "quick" else "MCRobust_gent.cfg"),
+                      os.path.join(wd, "gen"), workers=4, timeout=1800)
+        reps = C.replay_lines(g)
+        states += g["states"]
+        transitions += g["transitions"]
+        nall = len(reps)
+        rng = random.Random(seed)
+        lim = 5000 if tier == "quick" else 120000
+        if nall > lim:
+            rng.shuffle(reps)
+            reps = reps[:lim]
+        scens = []
+        for j, x in enumerate(reps):
+            mc = x["cfg"]
+            c = {"naming": mc["naming"], "rot": True, "size": rng.choice([30, 100]), "mode": rng.choice(["direct", "buf"]),
+                 "cap": 64, "append": bool(mc["append"]), "addw": (j % 2 == 0)}
+            if j % 5 == 0:
+                c.update({"k": 1, "m": 1})
+            if mc["naming"] in ("TsC", "TsCD"):
+                c["fmt"] = C10_FMT[mc["fmtc"]] or "r%Y-%m-%d_%H-%M-%S"
+                if mc["naming"] == "TsC":
+                    c["cur"] = "rNOW"
+            steps = _c10_dir_steps(mc["dirc"], c, rng)
+            steps.append({"op": "Start", "append": bool(mc["append"])})
+            steps.append({"op": "Log", "len": 20, "probe": True})
+            nfam = 0
+            for o in x["steps"]:
+                nfam += 1
+                steps += _c10_op_steps(o, rng, nfam)
+                steps.append({"op": "Log", "len": 20, "probe": True})
+                if rng.random() < 0.3:
+                    steps.append({"op": "Adv", "dt": rng.choice([1, 60, 86400])})
+            steps.append({"op": "Stop"})
+            scens.append({"sc": len(scens) + 1, "cfg": c, "t0": 1000, "steps": steps, "origin": "tlc:MCRobust", "obs": "sync",
+                          "tag": {"dirc": mc["dirc"], "fmtc": mc["fmtc"], "ops": "+".join(x["steps"])}})
+        # execute shard-wise with hang restart
+        nsh = 10
+        shards = C.shard(scens, nsh)
+
+        def one(i):
+            rest = shards[i]
+            tf = os.path.join(wd, f"MonC10-trace-{i}.ndjson")
+            open(tf, "w").close()
+            part = 0
+            nsc = nev = 0
+            while rest:
+                sf = os.path.join(wd, f"MonC10-scen-{i}-{part}.ndjson")
+                tp = os.path.join(wd, f"MonC10-trace-{i}-{part}.ndjson")
+                with open(sf, "w") as f:
+                    for s_ in rest:
+                        f.write(json.dumps(s_) + "\n")
+                env = dict(os.environ)
+                env.setdefault("TZ", "UTC")
+                p = subprocess.run([C.FLV, "flw", sf, tp, "--hang-secs", "20"], stdout=subprocess.PIPE, stderr=subprocess.PIPE,
+                                   text=True, env=env, timeout=1500)
+                lines = open(tp).readlines() if os.path.exists(tp) else []
+                with open(tf, "a") as f:
+                    f.writelines(lines)
+                done = {json.loads(x_)["sc"] for x_ in lines if '"ev":"Begin"' in x_}
+                nsc += len(done)
+                nev += len(lines)
+                if p.returncode == 5:
+                    rest = [s_ for s_ in rest if s_["sc"] not in done]
+                    part += 1
+                    continue
+                if p.returncode != 0:
+                    # the process itself died (abort/segfault): attribute it to the scenario that was running
+                    last = max(done) if done else rest[0]["sc"]
+                    with open(tf, "a") as f:
+                        f.write(json.dumps({"sc": last, "n": 9999, "ev": "Died", "ret": "panic:process exit %s" % p.returncode,
+                                            "retk": "panic", "o": False, "errs": [], "inj": 0, "injp": [], "faultleft": 0,
+                                            "t": 0, "tstr": ""}) + "\n")
+                    rest = [s_ for s_ in rest if s_["sc"] not in done]
+                    part += 1
+                    continue
+                break
+            b, cts, consumed, nl = C.judge("MonC10", tf, os.path.join(wd, f"meta-{i}"))
+            return nsc, nev, b, cts, tf
+
+        with ThreadPoolExecutor(max_workers=nsh) as ex:
+            results = list(ex.map(one, range(len(shards))))
+        bads, counts, events, nsc, traces = [], [], 0, 0, []
+        for (a, b_, c_, d_, tf) in results:
+            nsc += a
+            events += b_
+            bads += c_
+            traces.append(tf)
+            if d_:
+                counts = [x_ + y_ for x_, y_ in zip(counts, d_)] if counts else list(d_)
+        scen_files = []
+        sfall = os.path.join(wd, "all-scen.ndjson")
+        with open(sfall, "w") as f:
+            for s_ in scens:
+                f.write(json.dumps(s_) + "\n")
+        scen_files.append(sfall)
+        C.log(f"[C10] {nall} class combinations from TLC, {len(scens)} instantiated and executed ({events} events); judged by "
+              f"MonC10.tla; {len(bads)} predicate failures; counters {counts}")
+        viols, known = C.triage(pid, bads, traces, scen_files)
+        for fnd, cnt in known:
+            C.log(f"KNOWN-FINDING: property={pid} {fnd['id']}: {fnd['what']} ({cnt} occurrences)")
+        for v in viols[:10]:
+            C.log(f"VIOLATION property={pid} replay={v['replay']}")
+            C.log(f"   predicate {v['pred']} failed at scenario {v['sc']} event {v['n']}; facts {v['facts']}")
+        cov = {"evaluations": nsc, "distinct_nontrivial": len({json.dumps([s_["cfg"], s_["steps"]], sort_keys=True) for s_ in scens}),
+               "rule": "TLC enumerates every combination (directory class x naming x format class x append) x every sequence of 2 "
+                       "operation classes of Robust.tla; each combination is instantiated with fixed representatives and seeded "
+                       "random members (random Unicode targets / specification strings, 64 KiB - 1 MiB messages); a watchdog turns "
+                       "20 s without progress into a Hang event; each operation is followed by an ordinary probe record",
+               "samples": C.sample_traces(traces, k=2, maxev=10), "class_combinations": nall, "states": states,
+               "transitions": transitions, "events_judged": events, "traces_validated_against_impl": nsc,
+               "monitor": "MonC10.tla", "monitor_counters": counts, "predicate_failures": len(bads),
+               "known_findings_hit": [{"id": f["id"], "count": c} for f, c in known], "exhaustive": nall <= lim,
+               "harness_build_s": round(build_s, 1)}
+        C.write_evidence(pid, tier, seed, "exploration", cov,
+                         A_COMMON + ["membership inside an input class is sampled; the class partition is the catalogue of "
+                                     "MCRobust.tla", "documented panics are not provoked (FileSpec::try_from without file name, "
+                                     "force_utc after first use, broken error channel with panic_if_error_channel_is_broken)"],
+                         time.time() - t0, len(viols))
+        return 1 if viols else 0
+    finally:
+        shutil.rmtree(wd, ignore_errors=True)
+
+
+REGISTRY["C10"] = C10
+
+
 from . import routecheck as R  # noqa: E402
 REGISTRY.update({"C13": R.C13, "C20": R.C20})
 EXECUTOR.update({"C13": "route", "C20": "route"})
